@@ -83,6 +83,23 @@ class VOpaque:
         return self.canon()
 
 
+class VCoeffVec:
+    """Coefficient vector of a polynomial in the formal variable X, of length  n*len_n + len_off  where n is the
+    (symbolic) domain size: value = poly, an exact polynomial over symbols, `X` and `X^n`."""
+
+    def __init__(self, poly, len_n=1, len_off=0, known_len=True):
+        self.poly, self.len_n, self.len_off, self.known_len = poly, len_n, len_off, known_len
+
+    def pos(self, j):
+        return S("X") ** j
+
+    def push(self, v):
+        if not self.known_len:
+            raise OutsideFragment("push on a coefficient vector of unknown length")
+        self.poly = self.poly + as_poly(v) * (S("X^n") ** self.len_n) * (S("X") ** self.len_off)
+        self.len_off += 1
+
+
 class VIter:
     def __init__(self, items):
         self.items = list(items)
@@ -154,10 +171,16 @@ def canon(v):
         return "()"
     if isinstance(v, bool):
         return f"bool:{v}"
+    if isinstance(v, str):
+        return v
     if isinstance(v, VStruct):
         return v.name + "{" + ", ".join(f"{k}: {canon(x)}" for k, x in sorted(v.fields.items())) + "}"
     if v is None:
         return "none"
+    if isinstance(v, VCoeffVec):
+        return "coeffs" + canon(v.poly)
+    if isinstance(v, VRange):
+        return f"range({canon(v.lo)}, {canon(v.hi)})"
     raise OutsideFragment(f"cannot canonicalise {type(v).__name__}")
 
 
@@ -184,6 +207,8 @@ def as_poly(v):
         raise OutsideFragment("bool used as ring element")
     if isinstance(v, int):
         return C(v)
+    if isinstance(v, VCoeffVec):
+        return v.poly
     raise OutsideFragment(f"value {type(v).__name__} used as ring element")
 
 
@@ -218,6 +243,11 @@ class Interp:
         self.consts = consts        # name -> value (ints, Poly)
         self.src_name = src_name
         self.calls = []             # record of callee-contract uses
+        self.trace_only = False     # havoc statements outside the fragment that do not mention a tracked object
+        self.tracked = ()
+        self.havoc_count = {}
+        self.mut_names = set()
+        self.havocked = []
 
     # -------- helpers
     def fail(self, node, why):
@@ -262,6 +292,8 @@ class Interp:
         if k == "ident":
             if isinstance(val, VArr) and val.kind == "array":
                 val = val.copy()
+            if pat.get("mut"):
+                self.mut_names.add(pat["name"])
             env[pat["name"]] = val
         elif k == "wild":
             pass
@@ -280,6 +312,12 @@ class Interp:
                 raise OutsideFragment("tuple arity")
             for p, v in zip(pat["elems"], items):
                 self.bind(p, v, env)
+        elif k == "slice":
+            if isinstance(val, (VArr, VTuple)) and len(val.items) == len(pat["elems"]):
+                for p, v in zip(pat["elems"], val.items):
+                    self.bind(p, v, env)
+            else:
+                raise OutsideFragment("slice pattern against non-array")
         else:
             raise OutsideFragment(f"pattern kind {k}")
 
@@ -293,6 +331,36 @@ class Interp:
         return last
 
     def stmt(self, st, env, is_last):
+        if not self.trace_only:
+            return self.stmt_inner(st, env, is_last)
+        snap_log, snap_exits = len(self.ctx.log), len(self.ctx.exits)
+        try:
+            return self.stmt_inner(st, env, is_last)
+        except OutsideFragment as e:
+            names = set(_idents(st))
+            if names & set(self.tracked) or len(self.ctx.log) != snap_log or len(self.ctx.exits) != snap_exits:
+                raise OutsideFragment(f"statement mentions a tracked object ({sorted(names & set(self.tracked))}) and is outside the fragment: {e}")
+            # havoc: every name bound by the statement, and every `mut` local it mentions, gets a fresh opaque value
+            if st["k"] == "let":
+                for n in _pat_names(st["pat"]):
+                    dict.__setitem__(env, n, self.havoc_value(n))
+                for n in _pat_mut_names(st["pat"]):
+                    self.mut_names.add(n)
+            for n in sorted(names & self.mut_names):
+                if n in env and not (st["k"] == "let" and n in _pat_names(st["pat"])):
+                    try:
+                        set_var(env, n, self.havoc_value(n))
+                    except KeyError:
+                        pass
+            self.havocked.append({"span": st.get("span"), "why": str(e)[:160]})
+            return UNIT
+
+    def havoc_value(self, name):
+        k = self.havoc_count.get(name, 0) + 1
+        self.havoc_count[name] = k
+        return VOpaque(f"havoc:{name}#{k}")
+
+    def stmt_inner(self, st, env, is_last):
         k = st["k"]
         if k == "let":
             if not self.cfg_active(st):
@@ -384,6 +452,15 @@ class Interp:
 
     def e_binary(self, e, env):
         op = e["op"]
+        if op in ("+=", "-=") and e["l"]["k"] == "index":
+            base = self.expr(e["l"]["e"], env)
+            if isinstance(base, VCoeffVec):
+                idx = self.expr(e["l"]["i"], env)
+                if not isinstance(idx, int):
+                    self.fail(e, "symbolic index into coefficient vector")
+                r = as_poly(self.expr(e["r"], env))
+                base.poly = base.poly + (r if op == "+=" else -r) * base.pos(idx)
+                return UNIT
         if op in ("+=", "-=", "*="):
             cur = self.expr(e["l"], env)
             r = self.expr(e["r"], env)
@@ -451,6 +528,8 @@ class Interp:
             self.fail(e, f"no field {m}")
         if isinstance(b, Sym):
             return Sym(f"{b.path}.{m}")
+        if isinstance(b, VOpaque):
+            return Sym(f"{b.canon()}.{m}")
         self.fail(e, f"field access on {type(b).__name__}")
 
     def e_index(self, e, env):
@@ -472,16 +551,19 @@ class Interp:
                 return Sym(f"{b.path}[{i}]")
             if isinstance(i, Sym):
                 return Sym(f"{b.path}[{i.path}]")
+        if isinstance(b, (Sym, VOpaque)) and isinstance(i, VRange):
+            return VOpaque("slice", [b, 0 if i.lo is None else i.lo, "end" if i.hi is None else i.hi])
+        if isinstance(b, VCoeffVec) and isinstance(i, int):
+            self.fail(e, "reading a coefficient of a symbolic vector")
         self.fail(e, "indexing")
 
     def e_range(self, e, env):
         lo = self.expr(e["lo"], env) if e["lo"] is not None else None
         hi = self.expr(e["hi"], env) if e["hi"] is not None else None
-        if e["closed"] and hi is not None:
+        if e["closed"] and hi is not None and isinstance(hi, int):
             hi = hi + 1
-        for x in (lo, hi):
-            if x is not None and not isinstance(x, int):
-                self.fail(e, "range bound is not a compile-time constant")
+        if e["closed"] and hi is not None and not isinstance(hi, int):
+            self.fail(e, "inclusive range with symbolic bound")
         return VRange(lo, hi)
 
     def e_tuple(self, e, env):
@@ -502,8 +584,8 @@ class Interp:
     def e_for(self, e, env):
         it = self.expr(e["iter"], env)
         if isinstance(it, VRange):
-            if it.lo is None or it.hi is None:
-                self.fail(e, "unbounded range")
+            if not isinstance(it.lo, int) or not isinstance(it.hi, int):
+                self.fail(e, "range with symbolic bounds")
             items = list(range(it.lo, it.hi))
         elif isinstance(it, (VIter, VArr)):
             items = it.items
@@ -589,6 +671,8 @@ class Interp:
     def e_macro(self, e, env):
         if e["path"] in ("debug_assert", "debug_assert_eq"):
             return UNIT
+        if e["path"] == "vec":
+            raise OutsideFragment("vec! macro (havocked in trace-only mode)")
         self.fail(e, f"macro {e['path']}!")
 
     def e_struct(self, e, env):
@@ -667,6 +751,8 @@ class Interp:
                     return VIter(list(range(recv.lo, recv.hi)))
                 if isinstance(recv, Sym):
                     return VSymIter(recv)
+                if isinstance(recv, VOpaque):
+                    return VSymIter(Sym(recv.canon()))
                 self.fail(e, f".{m}() on symbolic collection")
             if m == "to_vec" and isinstance(recv, VArr):
                 return VArr(recv.items, "vec")
@@ -713,6 +799,11 @@ class Interp:
                 self.call_closure(args[0], [x])
             return UNIT
         # ---- vec / slice mutation
+        if m == "push" and isinstance(recv, VCoeffVec):
+            recv.push(args[0])
+            return UNIT
+        if m == "map" and isinstance(recv, VRange) and isinstance(recv.lo, int) and isinstance(recv.hi, int) and isinstance(args[0], VClosure):
+            return VIter([self.call_closure(args[0], [x]) for x in range(recv.lo, recv.hi)])
         if m == "push" and isinstance(recv, VArr):
             recv.items.append(args[0])
             return UNIT
@@ -741,6 +832,49 @@ class Interp:
             keys.append(f"{last}.{m}")
         keys.append("." + m)
         return keys
+
+
+def _idents(node):
+    """all identifier-like path segments mentioned in an AST node (for the tracked-object test)"""
+    out = []
+    if isinstance(node, dict):
+        if node.get("k") == "path" and "segs" in node:
+            out += node["segs"]
+        if node.get("k") == "ident" and "name" in node:
+            out.append(node["name"])
+        if node.get("k") == "macro" and "tokens" in node:
+            import re as _re
+            out += _re.findall(r"[A-Za-z_][A-Za-z0-9_]*", node["tokens"])
+        for v in node.values():
+            out += _idents(v)
+    elif isinstance(node, list):
+        for v in node:
+            out += _idents(v)
+    return out
+
+
+def _pat_names(pat):
+    k = pat.get("k")
+    if k == "ident":
+        return [pat["name"]]
+    if k in ("tuple", "slice", "tuple_struct"):
+        return [n for p in pat["elems"] for n in _pat_names(p)]
+    if k in ("typed", "ref"):
+        return _pat_names(pat["pat"])
+    if k == "struct":
+        return [n for f in pat["fields"] for n in _pat_names(f["pat"])]
+    return []
+
+
+def _pat_mut_names(pat):
+    k = pat.get("k")
+    if k == "ident":
+        return [pat["name"]] if pat.get("mut") else []
+    if k in ("tuple", "slice", "tuple_struct"):
+        return [n for p in pat["elems"] for n in _pat_mut_names(p)]
+    if k in ("typed", "ref"):
+        return _pat_mut_names(pat["pat"])
+    return []
 
 
 def dict_child(env):
@@ -840,7 +974,9 @@ class Unit:
               extraction is applied to both runs
     """
 
-    def __init__(self, name, file, fn, params, contract, outputs, consts=None, callee_keys=(), doc="", replay=None):
+    def __init__(self, name, file, fn, params, contract, outputs, consts=None, callee_keys=(), doc="", replay=None,
+                 trace_only=False, tracked=()):
+        self.trace_only, self.tracked = trace_only, tuple(tracked)
         self.name, self.file, self.fn = name, file, fn
         self.params, self.contract, self.outputs = params, contract, outputs
         self.consts = consts or {}
@@ -857,6 +993,7 @@ def run_unit(root, unit, contracts, seed=0, perturb=None):
     # ---- real body
     ctx1 = Ctx()
     it1 = Interp(ctx1, contracts, consts, src_name=f"{unit.file}::{unit.fn}")
+    it1.trace_only, it1.tracked = unit.trace_only, unit.tracked
     env = ChildEnv(None)
     sig = ast["sig"]
     args1 = []
